@@ -202,3 +202,123 @@ Example ex_nested :
                                                AReenter KEvalFn false [APush SData 3; AReenter KCaptured false [AFail]]]] c_rest
   = Err (mkCtrl [] [0%Z] [] 0 1%Z fsize).
 Proof. vm_compute. reflexivity. Qed.
+
+(* ====================================================================================
+   (6) READ-time and COMPILE-time state (Model/Phases.v): one load = read (lexer streams, token
+   queue, parser coroutine) ; compile (loop stack, symbol counter, main buffer appended only on
+   success) ; run (from pc to the end of the buffer, restore + pc parked on error).  The theorems
+   are about EVERY text, EVERY earlier history (any residual state) and EVERY failure point:
+   the failure is wherever the text makes the phase fail. *)
+Require Import ZV.Model.Phases ZV.Proofs.PhasesProofs.
+
+(* read phase: whatever an earlier text left in the lexer / parser (unread rest of a text that
+   failed in the middle, queued tokens, streams waiting, a suspended coroutine), a text is read as
+   by a new parser: result AND residual state *)
+Theorem read_after_any_history : forall n text r, read_text n text r = read_text n text r_init.
+Proof. exact read_after_any_proof. Qed.
+Print Assumptions read_after_any_history.
+
+(* compile phase: whatever a form generates or fails to generate, at any nesting depth (loops in
+   closures in loops ..), the loop stack is afterwards what it was *)
+Theorem compile_keeps_loopstack : forall f ce r ce', gen f ce = (r, ce') -> c_loops ce' = c_loops ce.
+Proof. exact compile_keeps_loopstack_proof. Qed.
+Print Assumptions compile_keeps_loopstack.
+
+(* so a break / continue outside any loop is refused whenever the interpreter is at rest *)
+Theorem stray_exit_rejected : forall lbl ce, c_loops ce = [] -> fst (gen (CExit lbl) ce) = GErr.
+Proof. exact stray_exit_rejected_proof. Qed.
+
+(* the generated code does not depend on the symbol counter a failed compilation advanced *)
+Theorem compile_depends_on_loopstack_only : forall l ce1 ce2,
+  c_loops ce1 = c_loops ce2 -> fst (gen_list l ce1) = fst (gen_list l ce2).
+Proof. exact gen_list_indep. Qed.
+
+(* invariant over all histories: after any sequence of loads, each of which may fail in any phase
+   at any point, the interpreter is at rest (loop stack empty, data stack empty, pc at the end of
+   the main buffer: nothing of a failed text is left to be executed by the next load) *)
+Theorem session_at_rest : forall n k texts st, at_rest st -> at_rest (snd (psession n k texts st)).
+Proof. exact session_at_rest_proof. Qed.
+Print Assumptions session_at_rest.
+
+(* error_restores, read and compile phases: a load that fails while reading or compiling is
+   invisible: every later sequence of loads has the outcomes it has in the interpreter that never
+   saw the failed text *)
+Theorem error_restores_read_compile : forall n k text later st, at_rest st ->
+  (fst (load n k text st) = OReadErr \/ fst (load n k text st) = OCompileErr) ->
+  fst (psession n k later (snd (load n k text st))) = fst (psession n k later st)
+  /\ at_rest (snd (load n k text st)).
+Proof. exact error_restores_read_compile_proof. Qed.
+Print Assumptions error_restores_read_compile.
+
+(* error_restores, run phase (failk's k-th call or an unbound global, anywhere in the text): a
+   prefix of the text's code ran to its end, the failing instruction defined nothing, the global
+   scope is the one that prefix produced, and every later sequence of loads has the outcomes it has
+   in ANY interpreter at rest that holds this scope and counter *)
+Theorem error_restores_run : forall n k text st e, at_rest st ->
+  fst (load n k text st) = ORunErr e ->
+  let st' := snd (load n k text st) in
+  at_rest st'
+  /\ (exists forms code pre i post m1,
+        read_spec n text = POk forms
+        /\ fst (gen_list (map classify forms) (i_ce st)) = GOk code
+        /\ code = pre ++ i :: post
+        /\ run_code k pre (i_m st) = (None, m1)
+        /\ fst (exec_instr k i m1) = Some e
+        /\ m_defs (i_m st') = m_defs m1)
+  /\ (forall later st2, at_rest st2 -> i_m st2 = i_m st' ->
+        fst (psession n k later st') = fst (psession n k later st2)).
+Proof. exact error_restores_run_proof. Qed.
+Print Assumptions error_restores_run.
+
+(* the memo cell of a lazy argument: a failed force leaves the cell as it was (not forced, no
+   value), so forcing it again evaluates again; a successful force is remembered *)
+Theorem failed_force_not_memoised : forall k t m e v t' m',
+  force k t m = ((Some e, v), t', m') -> t' = t /\ forall k2 m2, force k2 t' m2 = force k2 t m2.
+Proof.
+  intros. split; [eapply failed_force_not_memoised_proof; eassumption|eapply reforce_after_failure_proof; eassumption].
+Qed.
+Theorem successful_force_memoised : forall k t m v t' m',
+  force k t m = ((None, v), t', m') ->
+  t_forced t' = true /\ t_value t' = v /\ forall k2 m2, force k2 t' m2 = ((None, v), t', m2).
+Proof. exact force_memo_proof. Qed.
+Print Assumptions failed_force_not_memoised.
+
+(* (T) the facts of the Go source the definitions of Phases.v rely on, regenerated on every run *)
+Theorem phase_census_ok :
+  covers lexer_fields lexer_reset_clears lexer_kept_fields = true
+  /\ subset modelled_reader_fields lexer_reset_clears = true
+  /\ covers parser_fields parser_reset_clears parser_kept_fields = true
+  /\ subset required_reset_calls parser_reset_calls = true
+  /\ parser_recur_balanced = parser_recur_incs
+  /\ load_stream_resets_first = true
+  /\ (forloop_pushes, forloop_deferred_pops, generator_loop_pushes, generator_loop_pops) = (1, 1, 1, 1)%nat
+  /\ load_appends_after_compile = true
+  /\ (force_run_guarded, force_marks_before_run) = (true, 0%nat).
+Proof. vm_compute. repeat split; reflexivity. Qed.
+Print Assumptions phase_census_ok.
+
+(* ---- non-vacuity (Phases) ---- *)
+Definition tk (a : Z) := TAtom a.
+(* "(def a 1) ) (def b 7)": a stray closer in the middle; then "b": unbound, not 7 *)
+Definition ex_mid : list tok := [TOpen; tk 105; tk 200; tk 1; TClose; TClose; TOpen; tk 105; tk 201; tk 7; TClose].
+Example ex_read_error_mid_text :
+  fst (psession 50 0 [ex_mid; [tk 201]; [tk 200]] i_init) = [OReadErr; ORunErr XUnbound; ORunErr XUnbound].
+Proof. vm_compute. reflexivity. Qed.
+(* "(for [0 false 0] (fn [] (let [q] 1)))" fails to compile inside a closure inside a loop; then "(break)" is refused *)
+Definition ex_loop_bad : list tok :=
+  [TOpen; tk 100; TLB; tk 0; tk 107; tk 0; TRB; TOpen; tk 103; TLB; TRB; TOpen; tk 108; TLB; tk 300; TRB; tk 1; TClose; TClose; TClose].
+Example ex_compile_error_in_loop :
+  psession_obs 50 0 [ex_loop_bad; [TOpen; tk 101; TClose]; [tk 7]] i_init
+  = [(OCompileErr, (true, 0%nat, 0%nat)); (OCompileErr, (true, 0%nat, 0%nat)); (OVal (PvInt 7), (true, 0%nat, 0%nat))].
+Proof. vm_compute. reflexivity. Qed.
+(* "(def a 1) (def b (failk 2)) (def c 3)" with k = 1: a stays, b and c are not defined *)
+Example ex_run_error :
+  fst (psession 50 1 [[TOpen; tk 105; tk 200; tk 1; TClose; TOpen; tk 105; tk 201; TOpen; tk 106; tk 2; TClose; TClose; TOpen; tk 105; tk 202; tk 3; TClose];
+                      [tk 200]; [tk 201]; [tk 202]] i_init)
+  = [ORunErr XUser; OVal (PvInt 1); ORunErr XUnbound; ORunErr XUnbound].
+Proof. vm_compute. reflexivity. Qed.
+Example ex_failed_force :
+  let t := mkT false PvNil [IPush (PvInt 4); IFailk] in
+  fst (fst (force 1 t (mkM [] 0 []))) = (Some XUser, PvNil)
+  /\ fst (fst (force 1 (snd (fst (force 1 t (mkM [] 0 [])))) (mkM [] 1 []))) = (None, PvInt 4).
+Proof. vm_compute. split; reflexivity. Qed.
